@@ -150,6 +150,22 @@ pub fn build(rng: &mut Rng, i: usize) -> PDB {
         }
         k += 1;
     }
+    // a modified residue that shares its number with the residue before it (52, 52A): the MODRES record has to find it by
+    // number and insertion code; every such residue of the first model with a single conformer gets a modification
+    if !friendly {
+        if let Some(m) = pdb.model_mut(0) {
+            for ch in m.chains_mut() {
+                let nums: Vec<isize> = ch.residues().map(Residue::serial_number).collect();
+                for (ri, r) in ch.residues_mut().enumerate() {
+                    if ri > 0 && nums[ri - 1] == nums[ri] && r.insertion_code().is_some() && r.conformer_count() == 1 {
+                        if let Some(c) = r.conformers_mut().next() {
+                            let _ = c.set_modification(("SER".to_string(), "PHOSPHOSERINE".to_string()));
+                        }
+                    }
+                }
+            }
+        }
+    }
     if rng.chance(5, 6) {
         pdb.identifier = Some((*rng.pick(IDS)).to_string());
     }
@@ -157,7 +173,9 @@ pub fn build(rng: &mut Rng, i: usize) -> PDB {
         let n = *rng.pick(&[1usize, 2, 3, 4, 100, 200, 350, 465, 900, 999]);
         let words = ["RESOLUTION.", "1.80", "ANGSTROMS.", "THE", "STRUCTURE", "001", "REFINED"];
         let t: Vec<&str> = (0..1 + rng.below(6)).map(|_| *rng.pick(&words)).collect();
-        let _ = pdb.add_remark(n, t.join(" "));
+        // remark text may be indented (tables, continuation lines): the indentation is part of the text
+        let indent = if rng.chance(1, 3) { " ".repeat(1 + rng.below(4)) } else { String::new() };
+        let _ = pdb.add_remark(n, format!("{indent}{}", t.join(" ")));
     }
     // every twentieth structure an edge that the nine columns of CRYST1 cannot hold (no rule of validate_pdb looks at the cell)
     let long_edge = i % 20 == 4;
